@@ -332,6 +332,33 @@ def r04_4(run):
     cn = [v for _, v in writes_of(da, 'self.client_nonce')]
     okn = len(cn) >= 1 and all(isinstance(v, ast.Call) and dotted(v.func) == 'os.urandom' and const(v.args[0]) == 32 for v in cn)
     run.ob('R04.4', da, da.node, 'client nonce = os.urandom(32)', okn, slot='client-nonce', message='client nonce is not 32 fresh random bytes')
+    # compare_via_hash itself compares the whole of both values
+    cv = run.idx.unit('util.compare_via_hash')
+    a, b = cv.params[0], cv.params[1]
+    rets = [n for n in walk_unit(cv) if isinstance(n, ast.Return)]
+    shape_ok = None
+    why = 'unrecognised comparison'
+    uses_zip = any(isinstance(n, ast.Call) and dotted(n.func) in ('zip', 'itertools.izip') for n in walk_unit(cv))
+    has_len = any(isinstance(n, ast.Compare) and 'len(%s)' % a in src(n) and 'len(%s)' % b in src(n) for n in walk_unit(cv))
+    loops = [n for n in walk_unit(cv) if isinstance(n, (ast.For, ast.While, ast.comprehension))]
+    if len(rets) == 1 and not loops:
+        r = rets[0].value
+        if isinstance(r, ast.Compare) and len(r.ops) == 1 and isinstance(r.ops[0], ast.Eq):
+            l, rr = r.left, r.comparators[0]
+            lt = src(l).replace(a, '\0')
+            rt = src(rr).replace(b, '\0')
+            shape_ok = lt == rt and a in src(l) and b in src(rr)
+            why = 'the two sides are not the same function of the two arguments: %s' % src(r)
+        elif isinstance(r, ast.Call) and (dotted(r.func) or '').endswith('compare_digest'):
+            args = [dotted(x) for x in r.args]
+            shape_ok = sorted(args) == sorted([a, b])
+            why = 'compare_digest not applied to both arguments'
+    elif uses_zip or loops:
+        if not has_len:
+            shape_ok = False
+            why = 'element-wise comparison (zip/loop) without a length test accepts a truncated or empty value'
+    run.ob('R04.4', cv, cv.node, 'compare_via_hash compares the complete values', shape_ok, slot='compare-shape',
+           message='compare_via_hash: %s' % why)
     # taint: the raw cookie
     ci = proto(run)
     k = 0
@@ -407,6 +434,15 @@ def r04_5(run):
         bad = [x for x in later if x.kind in ('stmt', 'test') and any(isinstance(a, (ast.Yield, ast.YieldFrom, ast.Await)) for a in node_asts(x))]
         run.ob('R04.5', bs, n.ast, 'success is announced after the last bootstrap query', not bad, slot='bootstrap-last',
                message='_bootstrap yields after post_bootstrap.callback (success before the bootstrap queries finished)')
+    # every command issued by the bootstrap is awaited (no dropped Deferred) before success
+    API = ('queue_command', 'get_info', 'get_info_raw', 'get_info_single', 'get_conf', 'get_conf_single', 'set_conf',
+           'signal', 'add_event_listener', 'get_info_incremental')
+    for st in walk_unit(bs):
+        if isinstance(st, ast.Expr) and isinstance(st.value, ast.Call) and (dotted(st.value.func) or '').startswith('self.') \
+                and callee_attr(st.value) in API:
+            run.ob('R04.5', bs, st, 'bootstrap commands are awaited before ready is announced', False, slot='dropped-deferred:%s' % callee_attr(st.value),
+                   message='_bootstrap issues %s without waiting for its reply: post_bootstrap reports success while the '
+                           'command is outstanding and its failure is lost' % src(st.value)[:60])
     ys = [a for a in walk_unit(bs) if isinstance(a, ast.Yield)]
     run.floor('R04.5', 'bootstrap queries (yields) before ready', len(ys), 3)
     # unreturned chains end in addErrback(self._auth_failed)
